@@ -998,7 +998,7 @@ func scanNumber(l *lexer) (typ itemType, ok bool) {
 			// No signs for hexadecimals.
 			return
 		}
-		l.acceptRun("0x")
+		l.pos += 2
 		if !l.acceptRun(hexDigits) {
 			// Requires at least one digit.
 			return
